@@ -10,7 +10,9 @@ use crate::analysis::LockedUnit;
 use crate::ast::search::Search;
 use crate::ast::search::SearchState;
 use crate::ast::search::Searcher;
+use crate::ast::HasUnitId;
 use crate::ast::UnitId;
+use crate::ast::UnitKey;
 use crate::data::error_codes::ErrorCode;
 use crate::data::DiagnosticHandler;
 use crate::data::Symbol;
@@ -198,8 +200,15 @@ fn find_unused_declarations<'a>(
 /// Use a struct to keep state of units that do not need to be re-scanned
 #[derive(Default)]
 pub(crate) struct UnusedDeclarationsLinter {
-    // library name, primary name
-    diagnostics: FnvHashMap<(Symbol, Symbol), Vec<Diagnostic>>,
+    // library name, primary name -> keys of the secondary units that were scanned, diagnostics
+    diagnostics: FnvHashMap<(Symbol, Symbol), (FnvHashSet<UnitKey>, Vec<Diagnostic>)>,
+}
+
+/// The secondary units that are scanned together with a primary unit
+fn secondary_keys(lib: &Library, primary_unit_name: &Symbol) -> FnvHashSet<UnitKey> {
+    lib.secondary_units(primary_unit_name)
+        .map(|unit| unit.key().clone())
+        .collect()
 }
 
 impl UnusedDeclarationsLinter {
@@ -226,26 +235,47 @@ impl UnusedDeclarationsLinter {
             false
         });
 
-        for unit in analyzed_units {
-            let key = (unit.library_name().clone(), unit.primary_name().clone());
+        // A secondary unit that was removed is not among the analyzed units,
+        // what it referenced in the primary unit must no longer count as used
+        let mut outdated = Vec::new();
+        for (key, (scanned, _)) in self.diagnostics.iter() {
+            if let Some(library) = root.get_lib(&key.0) {
+                if secondary_keys(library, &key.1) != *scanned {
+                    outdated.push(key.clone());
+                }
+            }
+        }
+        for key in outdated.iter() {
+            self.diagnostics.remove(key);
+        }
 
-            if let Some(library) = root.get_lib(unit.library_name()) {
+        let to_scan = analyzed_units
+            .iter()
+            .map(|unit| (unit.library_name().clone(), unit.primary_name().clone()))
+            .chain(outdated);
+
+        for key in to_scan {
+            if let Some(library) = root.get_lib(&key.0) {
+                let primary_name = key.1.clone();
                 self.diagnostics.entry(key).or_insert_with(|| {
-                    find_unused_declarations(root, library, unit.primary_name())
-                        .into_iter()
-                        .filter_map(|ent| {
-                            Some(Diagnostic::new(
-                                ent.decl_pos()?,
-                                format!("Unused declaration of {}", ent.describe()),
-                                ErrorCode::Unused,
-                            ))
-                        })
-                        .collect_vec()
+                    (
+                        secondary_keys(library, &primary_name),
+                        find_unused_declarations(root, library, &primary_name)
+                            .into_iter()
+                            .filter_map(|ent| {
+                                Some(Diagnostic::new(
+                                    ent.decl_pos()?,
+                                    format!("Unused declaration of {}", ent.describe()),
+                                    ErrorCode::Unused,
+                                ))
+                            })
+                            .collect_vec(),
+                    )
                 });
             }
         }
 
-        for ((library_name, _), unit_diagnostics) in self.diagnostics.iter() {
+        for ((library_name, _), (_, unit_diagnostics)) in self.diagnostics.iter() {
             if let Some(library_config) = config.get_library(&library_name.name_utf8()) {
                 if !library_config.is_third_party {
                     diagnostics.append(unit_diagnostics.iter().cloned());
